@@ -51,6 +51,11 @@ structure Env where
   chargeComp : Comp
   /-- mass of one atom / particle (`chem_mass({x: 1})`) -/
   em : List Char → Rat
+  /-- `NTERM_COMPOSITION`, `CTERM_COMPOSITION` (the terminal H and OH) -/
+  ntermComp : Comp := []
+  ctermComp : Comp := []
+  /-- the keys of `ISOTOPIC_ATOMIC_MASSES` (labels `parse_isotope_mods` accepts) -/
+  knownLabel : List Char → Bool := fun _ => true
   /-- the `isotope` argument (neutron offset) -/
   isotope : Int := 0
   /-- ion type is `p` (labile mods count) -/
@@ -154,15 +159,22 @@ def moveToH (m : LabelMap) (k : List Char) : LabelMap :=
   | some v => mapSet (mapPop m k) ['H'] v
   | none => m
 
-/-- `parse_isotope_mods`: digits removed give the element, later entries overwrite, then `D`/`T` are moved to `H` -/
-def parseIsotopeMods (l : List Mod) : Except Err LabelMap :=
-  if l.all (fun m => match m.val with | .str _ => true | _ => false) then
-    let m0 := l.foldl (fun acc m =>
-      match m.val with
-      | .str s => mapSet acc (s.filter fun c => !isDig c) s
-      | _ => acc) ([] : LabelMap)
-    .ok (moveToH (moveToH m0 ['D']) ['T'])
-  else .error .typeError
+/-- the loop of `parse_isotope_mods`: a non-string is a TypeError, a label that is not a key of
+`ISOTOPIC_ATOMIC_MASSES` a ValueError (since repo commit f542eb3); digits removed give the element; later entries overwrite -/
+def labelFold (known : List Char → Bool) : List Mod → LabelMap → Except Err LabelMap
+  | [], acc => .ok acc
+  | m :: r, acc =>
+    match m.val with
+    | .str s =>
+      if known s then labelFold known r (mapSet acc (s.filter fun c => !isDig c) s)
+      else .error .valueError
+    | _ => .error .typeError
+
+/-- `parse_isotope_mods`: then `D` / `T` are moved to `H` -/
+def parseIsotopeMods (known : List Char → Bool) (l : List Mod) : Except Err LabelMap :=
+  match labelFold known l [] with
+  | .ok m0 => .ok (moveToH (moveToH m0 ['D']) ['T'])
+  | .error e => .error e
 
 /-- one step of `apply_isotope_mods_to_composition` -/
 def relabel1 (c : Comp) (el lab : List Char) : Comp :=
@@ -234,7 +246,7 @@ def compMassOf (E : Env) (a : Annotation) : Except Err (Comp × Rat) :=
   | .error e => .error e
   | .ok c =>
     if (allMods c).any (isBad E) then .error .valueError else
-    match (match c.isotope with | some l => parseIsotopeMods l | none => .ok []) with
+    match (match c.isotope with | some l => parseIsotopeMods E.knownLabel l | none => .ok []) with
     | .error e => .error e
     | .ok lm =>
       let sc := relabel (sequenceComposition E c) lm
